@@ -14,8 +14,10 @@ SPEC_TYPES["FIELD"] = FIELD
 # length is fixed by the response version (aiokafka/protocol/fetch.py schemas):
 #   v0-3 [message_set]; v4 [lso, aborted, message_set]; v5-10 [lso, log_start, aborted, message_set];
 #   v11 [lso, log_start, aborted, preferred_read_replica, message_set]
-FPART = Tup(INT, INT, INT, List(FIELD))
-FPART.star_rest = True
+#   (modelled at the maximal width, v11; the real tuple has 3 + fetch_rest_arity(version) components, so that
+#    `partition, error_code, highwater, *part_data = entry` gives part_data exactly that many elements - quantifier-free)
+FPART = Tup(INT, INT, INT, FIELD, FIELD, FIELD, FIELD, FIELD)
+FPART.flex_arity = "3 + fetch_rest_arity(response.API_VERSION)"
 classmodel("FetchResponse", {"API_VERSION": INT, "topics": List(Tup(STR, List(FPART)))})
 classmodel("FetchReq", {"_topics": List(Tup(STR, List(Tup(INT, INT, INT))))}, props={"topics": "self._topics"})
 classmodel("ClientObj", {})
@@ -78,7 +80,7 @@ def _(c):
     c.requires("self._default_reset_strategy == OffsetResetStrategy.LATEST or self._default_reset_strategy == OffsetResetStrategy.EARLIEST"
                " or self._default_reset_strategy == OffsetResetStrategy.NONE", "reset-policy-is-a-strategy-constant")
     c.call("self._client.send", returns=Ref("FetchResponse"), havoc_all=True, raises=["KafkaError", "CancelledError"],
-           post=["fresh(result)", "0 <= result.API_VERSION <= 11", WF_RESP],
+           post=["fresh(result)", "0 <= result.API_VERSION <= 11"],
            note="AIOKafkaClient.send: suspends; returns the decoded FetchResponse of the negotiated version, whose "
                 "partition entries have the arity of that version's schema (bounded C11 checks the schema tables)")
     c.call("asyncio.sleep", havoc_all=True, raises=["CancelledError"], note="suspends")
@@ -109,9 +111,10 @@ def _(c):
     c.loop(0, header="for topic, partitions in request.topics", invariants=[])
     c.loop(1, header="for partition, offset, _ in partitions", invariants=[])
     ACTIVE = ("assignment-still-active", "not assignment.unassign_future.done()")
-    c.loop(2, header="for topic, partitions in response.topics", invariants=[("response-well-formed", WF_RESP_L), ACTIVE])
-    c.loop(3, header="for partition, error_code, highwater, *part_data in partitions",
-           invariants=[("response-well-formed", WF_RESP_L), ACTIVE])
+    # (the response object is never written: what client.send promised about it - the arity of its partition entries -
+    #  stays in the path condition across the loop cuts, it need not be restated as an invariant)
+    c.loop(2, header="for topic, partitions in response.topics", invariants=[ACTIVE])
+    c.loop(3, header="for partition, error_code, highwater, *part_data in partitions", invariants=[ACTIVE])
     # ---- C03/C05: data is buffered only for the live assignment and only if it was fetched from the current position
     FRESHPOS = "tp_state._position is not None and tp_state._position == fetch_offset"
     c.hook("before", "PartitionRecords", [
